@@ -356,6 +356,7 @@ func Gen(r *rand.Rand, o GenOpts) *Doc {
 		}
 	}
 	genRegimeFamilies(r, d, ri)
+	genNothingSpellings(r, d)
 	if !o.NoRounding && r.Intn(25) == 0 {
 		maxE := int(c)
 		if !o.CurrencyOnly && r.Intn(3) == 0 {
